@@ -1837,6 +1837,8 @@ fn to_upper_camel_case(name: &str) -> String {
         // The name "Guest" is reserved for traits generated by exported
         // interfaces, so remap types defined in wit to something else.
         "guest" => "Guest_".to_string(),
+        // `Self` is a keyword and cannot name a type.
+        "self" => "Self_".to_string(),
         s => s.to_upper_camel_case(),
     }
 }
